@@ -95,7 +95,9 @@ class TorchBackend(BaseBackend):
         # differ, matching the previous torch.tensor() behavior).
         def f(t, y):
             rhs = func(torch.as_tensor(t, dtype=dtype), torch.as_tensor(y, dtype=dtype), *args)
-            return rhs.numpy()
+            # copy: func returns its reused output buffer and scipy keeps references to returned slopes across
+            # evaluations (e.g. the slope at the step start, re-used after a rejected step)
+            return rhs.numpy().copy()
 
         # call scipy solver
         results = solve_ivp(fun=f, t_span=(t0, T), y0=y, first_step=dt, **kwargs)
